@@ -6,7 +6,7 @@ agg = collections.defaultdict(lambda: collections.defaultdict(int)); what = {}
 for p in props:
     for s in seeds:
         env = dict(os.environ, VERIF_SEED=s)
-        r = subprocess.run(['/verif/check', p, '--tier', tier], capture_output=True, text=True, env=env)
+        r = subprocess.run(['/verif/check', p, '--tier', tier], capture_output=True, text=True, errors="replace", env=env)
         for l in r.stdout.splitlines():
             if l.startswith('VIOLATION'):
                 k = l.split(' key=', 1)[1]
